@@ -5,7 +5,7 @@
   * run_cases()       - feeds case scripts to the real code through the driver, surviving deaths
   * Evidence / Result - evidence file writer and verdict bookkeeping (VIOLATION / KNOWN-FINDING)
 """
-import atexit, hashlib, json, os, random, re, shutil, subprocess, sys, time
+import atexit, hashlib, json, os, random, re, shutil, subprocess, sys, threading, time
 
 VERIF = os.path.dirname(os.path.dirname(os.path.abspath(__file__)))
 REPO = os.environ.get("VERIF_REPO", "/repo")
@@ -76,6 +76,27 @@ def build_harness(race=False, cmd="mktsverif"):
     return out
 
 
+MEM_LIMIT_GB = float(os.environ.get("VERIF_MEM_GB", "24"))
+
+
+def _mem_watchdog(p, memkill):
+    """kills the driver when its resident set exceeds MEM_LIMIT_GB (a seeded defect made one driver grow to 56 GB)"""
+    path = "/proc/%d/status" % p.pid
+    while p.poll() is None:
+        try:
+            for line in open(path):
+                if line.startswith("VmRSS:"):
+                    gb = int(line.split()[1]) / 1048576.0
+                    if gb > MEM_LIMIT_GB:
+                        memkill.append(gb)
+                        p.kill()
+                        return
+                    break
+        except (OSError, ValueError, IndexError):
+            return
+        time.sleep(0.5)
+
+
 def run_cases(binary, cases, timeout=600, env=None, per_case_timeout=None, tag="cases", stderr_tail=3000):
     """Run case scripts [{'id':..,'ops':[..]}] through the driver.
 
@@ -106,13 +127,26 @@ def run_cases(binary, cases, timeout=600, env=None, per_case_timeout=None, tag="
         remaining = t_end - time.time()
         if remaining <= 0:
             raise Undecided("driver timeout after %d cases" % start)
+        memkill = []
         try:
-            p = subprocess.run([binary, "cases", "--in", fin, "--out", fout, "--from", str(start)],
-                               env=env or GOENV, stdout=subprocess.PIPE, stderr=subprocess.PIPE, timeout=remaining)
-            rc, err = p.returncode, p.stderr[-stderr_tail:].decode("utf-8", "replace")
-            out_tail = p.stdout[-3000:].decode("utf-8", "replace")
+            p = subprocess.Popen([binary, "cases", "--in", fin, "--out", fout, "--from", str(start)],
+                                 env=env or GOENV, stdout=subprocess.PIPE, stderr=subprocess.PIPE)
+            wd = threading.Thread(target=_mem_watchdog, args=(p, memkill), daemon=True)
+            wd.start()
+            try:
+                so, se = p.communicate(timeout=remaining)
+            except subprocess.TimeoutExpired:
+                p.kill()
+                p.communicate()
+                raise
+            rc, err = p.returncode, se[-stderr_tail:].decode("utf-8", "replace")
+            out_tail = so[-3000:].decode("utf-8", "replace")
         except subprocess.TimeoutExpired as e:
             rc, err, out_tail = -9, "timeout", ""
+        if memkill:
+            # a resource verdict is never a violation: the driver (the real code under some case) outgrew the memory budget
+            raise Undecided("driver killed by the memory watchdog at %.1f GB resident (limit %s GB, VERIF_MEM_GB) after %d finished cases" % (
+                memkill[0], MEM_LIMIT_GB, start))
         done = 0
         begun = None
         if os.path.exists(fout):
